@@ -137,3 +137,23 @@ Theorem C16_source_facts :
   gen_stream_data_dispatch_order = stream_data_dispatch_order.
 Proof. repeat split; reflexivity. Qed.
 Print Assumptions C16_source_facts.
+
+(** Dispatch order, regenerated from the source: in each of the thirteen
+    handlers that dispatch a frame by its stream id the relay table is
+    consulted before every local endpoint and a relay match returns. *)
+Theorem C16_dispatch_order_facts :
+  gen_relay_first_handleStreamOpenAck = relay_consulted_first /\ gen_relay_match_returns_handleStreamOpenAck = relay_consulted_first /\
+  gen_relay_first_handleStreamOpenErr = relay_consulted_first /\ gen_relay_match_returns_handleStreamOpenErr = relay_consulted_first /\
+  gen_relay_first_handleStreamData = relay_consulted_first /\ gen_relay_match_returns_handleStreamData = relay_consulted_first /\
+  gen_relay_first_handleStreamClose = relay_consulted_first /\ gen_relay_match_returns_handleStreamClose = relay_consulted_first /\
+  gen_relay_first_handleStreamReset = relay_consulted_first /\ gen_relay_match_returns_handleStreamReset = relay_consulted_first /\
+  gen_relay_first_handleUDPOpenAck = relay_consulted_first /\ gen_relay_match_returns_handleUDPOpenAck = relay_consulted_first /\
+  gen_relay_first_handleUDPOpenErr = relay_consulted_first /\ gen_relay_match_returns_handleUDPOpenErr = relay_consulted_first /\
+  gen_relay_first_handleUDPDatagram = relay_consulted_first /\ gen_relay_match_returns_handleUDPDatagram = relay_consulted_first /\
+  gen_relay_first_handleUDPClose = relay_consulted_first /\ gen_relay_match_returns_handleUDPClose = relay_consulted_first /\
+  gen_relay_first_handleICMPOpenAck = relay_consulted_first /\ gen_relay_match_returns_handleICMPOpenAck = relay_consulted_first /\
+  gen_relay_first_handleICMPOpenErr = relay_consulted_first /\ gen_relay_match_returns_handleICMPOpenErr = relay_consulted_first /\
+  gen_relay_first_handleICMPEcho = relay_consulted_first /\ gen_relay_match_returns_handleICMPEcho = relay_consulted_first /\
+  gen_relay_first_handleICMPClose = relay_consulted_first /\ gen_relay_match_returns_handleICMPClose = relay_consulted_first.
+Proof. repeat split; reflexivity. Qed.
+Print Assumptions C16_dispatch_order_facts.
